@@ -438,6 +438,9 @@ class World:
         asyncio.set_event_loop(None)
         if len(preps) >= 3 and order != [p["id"] for p in preps]:
             self.probe("async-group>=3-out-of-order-completion")
+        ids = [p["id"] for p in preps]
+        # distinct interleavings: completion order of the group as a permutation of start positions
+        self.states.add("sched|" + str(len(ids)) + "|" + ",".join(str(ids.index(x)) for x in order if x in ids))
         self.log.append(f"group async ids={[p['id'] for p in preps]} completion={order} vtime={lp.time():.4f}")
         return out
 
